@@ -41,7 +41,7 @@ def configs(tier):
             dict(name="rx+two-registers+transmit", checks=["rx"], phy=small, ctrl=TERM + [dict(dp_pulldown=0)], packets=[[0xC3, 0x5A], [0x2D]]),
         ]
     if tier != "quick":
-        for c in out: c["max_states"] = 500_000      # deterministic cap; only reached on trees where register writes go wrong
+        for c in out: c["max_states"] = 300_000      # deterministic cap; only reached on trees where register writes go wrong
     return out
 
 
